@@ -5,7 +5,7 @@
    recursion skeleton of the parsers' dangerous spots, with outcome Done | Fail | Panic, following
    the code after this property's fix: commits.  "Never Panic" for the class reader as a whole is
    NOT claimed (see stated_not_proved in props/c16.py); the harness covers it by search. *)
-From FB Require Import C16.Model C16.Theory C16.Theory2 C18.Model.
+From FB Require Import C16.Model C16.Theory C16.Theory2 C16.Theory3 C18.Model.
 
 (* Labels: a local-variable range is computed without overflow ... *)
 Theorem C16_no_panic_label_range : forall code_len start len, get_or_create_range code_len start len <> Panic.
@@ -60,6 +60,53 @@ Theorem C16_bootstrap_fuel_immaterial : forall fuel limit pool bsms idx nesting 
 Proof. exact resolve_fuel_mono. Qed.
 Print Assumptions C16_bootstrap_fuel_immaterial.
 
+(* Bootstrap arguments, the bound on the work: ONE budget of 65536 for all top-level arguments of
+   one instruction.  [indy_instruction_w] / [ldc_instruction_w] count the calls of
+   get_loadable_nested next to the result: never Panic; at most 65537 (65538 for ldc, whose root
+   is not charged) calls whatever the outcome; and an accepted instruction made exactly
+   65536 - left of them, i.e. total expansions per instruction <= 65536 or Err. *)
+Theorem C16_bootstrap_work_bounded_invokedynamic : forall pool bsms args,
+  let wr := indy_instruction_w pool bsms args in
+  snd wr = indy_instruction pool bsms args /\ snd wr <> Panic /\ fst wr <= max_expanded + 1 /\
+  (forall lft, snd wr = Done lft -> fst wr + lft = max_expanded).
+Proof. exact indy_instruction_bounded. Qed.
+Print Assumptions C16_bootstrap_work_bounded_invokedynamic.
+
+Theorem C16_bootstrap_work_bounded_ldc : forall pool bsms idx,
+  let wr := ldc_instruction_w pool bsms idx in
+  snd wr = ldc_instruction pool bsms idx /\ snd wr <> Panic /\ fst wr <= max_expanded + 2 /\
+  (forall lft, snd wr = Done lft -> fst wr + lft = max_expanded + 1).
+Proof. exact ldc_instruction_bounded. Qed.
+Print Assumptions C16_bootstrap_work_bounded_ldc.
+
+(* ... and the budget decides: an accepting run consumes c = B - left whatever the budget is, and
+   the same arguments are accepted with budget B' iff c <= B' (so: accepted iff the total number
+   of expanded arguments of the instruction is at most 65536) *)
+Theorem C16_bootstrap_budget_decides : forall pool bsms args B lft,
+  resolve_all resolve_fuel (Some max_nesting) pool bsms args 1 B = Done lft ->
+  lft <= B /\ forall B', resolve_all resolve_fuel (Some max_nesting) pool bsms args 1 B' = if (B - lft) <=? B' then Done (B' - (B - lft)) else Fail.
+Proof. exact indy_accepts_iff_total_within_budget. Qed.
+Print Assumptions C16_bootstrap_budget_decides.
+
+(* the model distinguishes the per-instruction budget from a per-argument one (3 x 32767 constants) *)
+Theorem C16_per_argument_budget_would_exceed : per_argument_budget_witness.
+Proof. exact per_argument_budget_witness_holds. Qed.
+Print Assumptions C16_per_argument_budget_would_exceed.
+
+(* Class writer, invokeinterface count operand: MethodDescriptorSlice::get_arguments_size on any
+   string (the reader accepts every descriptor) — an error past 255 slots, never an u8 overflow *)
+Theorem C16_no_panic_arguments_size : forall s, arguments_size s <> Panic.
+Proof. exact arguments_size_no_panic. Qed.
+Print Assumptions C16_no_panic_arguments_size.
+
+Theorem C16_arguments_size_fits_u8 : forall s n, arguments_size s = Done n -> n <= 255.
+Proof. exact arguments_size_fits_u8. Qed.
+Print Assumptions C16_arguments_size_fits_u8.
+
+Theorem C16_unrepaired_arguments_size_overflows : arguments_size_unrepaired_witnesses.
+Proof. exact arguments_size_unrepaired_witnesses_hold. Qed.
+Print Assumptions C16_unrepaired_arguments_size_overflows.
+
 (* Element values and Enigma CLASS sections: any tree, bounded recursion *)
 Theorem C16_no_panic_nesting : forall t, read_nest nest_fuel (Some max_nesting) 0 t <> Panic.
 Proof. exact nesting_no_panic. Qed.
@@ -87,6 +134,12 @@ Print Assumptions C16_shared_bootstrap_arguments_refuted.
 Theorem C16_no_panic_text_line : forall l, text_line l <> Panic.
 Proof. exact text_line_no_panic. Qed.
 Print Assumptions C16_no_panic_text_line.
+
+(* Comments: tiny_v2::unescape (shared by the tiny v2 and tiny diff readers) works on chars, is
+   total by construction, and never produces more than it was given *)
+Theorem C16_unescape_never_longer : forall s, (length (unescape_cp s) <= length s)%nat.
+Proof. exact unescape_cp_length. Qed.
+Print Assumptions C16_unescape_never_longer.
 
 (* Descriptor parsers are total *)
 Theorem C16_descriptor_parser_total : forall s, (exists t, parse_field s = Ok t) \/ parse_field s = Err.
